@@ -8,6 +8,10 @@
 #include <algorithm>
 #include <set>
 #include <unordered_set>
+#include <signal.h>
+#include <sys/mman.h>
+#include <sys/wait.h>
+#include <unistd.h>
 #include <rtosc/savefile.h>
 #include <rtosc/rtosc-version.h>
 #include "common.h"
@@ -167,6 +171,24 @@ inline File parse_file(const std::string &text, const char *app)
     return f;
 }
 
+// class of spelling of one message line, used to narrow signatures (not an oracle)
+inline std::string line_shape(const std::string &msg)
+{
+    size_t sp = msg.find(' ');
+    std::string v = sp == std::string::npos ? "" : msg.substr(sp + 1);
+    if(v == "'") return ":char-literal-cut-short";
+    if(!v.empty() && v[0] == '[') {
+        bool sym = false, num = false, start = true;
+        for(size_t i = 1; i < v.size(); ++i) {
+            char c = v[i];
+            if(c == ' ' || c == '\n' || c == ']') { start = true; continue; }
+            if(start) { if(isalpha((unsigned char)c) || c == '_') sym = true; else if(isdigit((unsigned char)c) || c == '-') num = true; start = false; }
+        }
+        if(sym && num) return ":array-of-symbols-and-numbers";
+    }
+    return "";
+}
+
 inline std::string join(const std::string &header, const std::vector<std::string> &msgs)
 {
     std::string s = header;
@@ -182,6 +204,106 @@ template <class App> std::string save(App &inst)
 template <class App> int load(App &inst, const std::string &text)
 {
     return rtosc::load_from_file(text.c_str(), App::ports, &inst, appname(App::name()).c_str(), APPVER);
+}
+
+
+// ---------------------------------------------------------------------------------------------------
+// Crash isolation. The per-state work runs in a forked worker; before every call into the library the
+// worker notes case id, phase and file text in shared memory. When the worker dies (sanitizer abort, signal,
+// alarm = no progress for 60 s) the supervisor turns that into a violation with the noted case id and
+// continues behind the crashing state with a new worker. Workers write their counters as additional shard
+// result files (<out>_<tag>_w<n>.json), which run.py sums like those of the bfs engine.
+struct Mark {
+    volatile uint64_t cursor;      // index into the todo list the worker is at
+    volatile int capped;           // worker stopped on the deadline
+    char case_id[700];
+    char phase[64];
+    uint32_t text_len;
+    char text[65536];
+};
+inline Mark *&mark_ptr() { static Mark *m = nullptr; return m; }
+inline void mark(const std::string &case_id, const char *phase, const std::string &text)
+{
+    Mark *m = mark_ptr();
+    vp::current_case() = case_id;
+    if(!m) return;
+    snprintf(m->case_id, sizeof m->case_id, "%s", case_id.c_str());
+    snprintf(m->phase, sizeof m->phase, "%s", phase);
+    m->text_len = (uint32_t)std::min(text.size(), sizeof m->text - 1);
+    memcpy(m->text, text.data(), m->text_len); m->text[m->text_len] = 0;
+    alarm(60);
+}
+// run fn() in a forked child; true if it exited normally with status 0
+template <class Fn> bool survives(Fn fn)
+{
+    fflush(nullptr);
+    pid_t pid = fork();
+    if(pid < 0) { perror("fork"); exit(3); }
+    if(pid == 0) { alarm(60); fn(); _exit(0); }
+    int st = 0; waitpid(pid, &st, 0);
+    return WIFEXITED(st) && WEXITSTATUS(st) == 0;
+}
+#if defined(__SANITIZE_ADDRESS__)
+extern "C" void __sanitizer_set_death_callback(void (*callback)(void));
+#endif
+// a dying worker still writes the counters and violations it has collected so far
+inline void worker_last_words() { static bool once = false; if(once) return; once = true; vp::finish(); fflush(nullptr); }
+inline void worker_alarm(int) { fprintf(stderr, "CASE: %s\nno progress for 60 s\n", vp::current_case().c_str()); worker_last_words(); _exit(78); }
+inline std::string how_died(int st)
+{
+    if(WIFSIGNALED(st)) return "killed by signal " + std::to_string(WTERMSIG(st));
+    if(WEXITSTATUS(st) == 78) return "no progress for 60 s";
+    return "aborted with exit status " + std::to_string(WEXITSTATUS(st)) + " (sanitizer report in the shard log)";
+}
+
+// todo: number of items; work(k): executed in a worker; crashed(k, mark, how): executed in the supervisor
+template <class Work, class Crashed> void supervise(const std::string &tag, size_t todo, Work work, Crashed crashed)
+{
+    vp::Ctx &C = vp::ctx();
+    if(!mark_ptr()) {
+        void *p = mmap(nullptr, sizeof(Mark), PROT_READ | PROT_WRITE, MAP_SHARED | MAP_ANONYMOUS, -1, 0);
+        if(p == MAP_FAILED) { perror("mmap"); exit(3); }
+        mark_ptr() = (Mark *)p;
+    }
+    Mark *m = mark_ptr();
+    std::string base = C.out.empty() ? std::string("save") : C.out.substr(0, C.out.size() > 5 ? C.out.size() - 5 : C.out.size());
+    size_t pos = 0;
+    int gen = 0;
+    while(pos < todo) {
+        m->cursor = pos; m->capped = 0; m->case_id[0] = 0; m->phase[0] = 0; m->text_len = 0;
+        fflush(nullptr);
+        pid_t pid = fork();
+        if(pid < 0) { perror("fork"); exit(3); }
+        if(pid == 0) {
+            vp::Ctx keep = C;
+            C = vp::Ctx();
+            C.id = keep.id; C.thorough = keep.thorough; C.shard = keep.shard; C.nshards = keep.nshards; C.deadline_s = keep.deadline_s; C.t0 = keep.t0;
+            C.replay = keep.replay; C.replay_mode = keep.replay_mode;
+            C.out = base + "_" + tag + "_w" + std::to_string(gen) + ".json";
+#if defined(__SANITIZE_ADDRESS__)
+            __sanitizer_set_death_callback(worker_last_words);
+#endif
+            signal(SIGALRM, worker_alarm);
+            size_t k = pos;
+            for(; k < todo; ++k) {
+                if(vp::deadline_passed()) { m->capped = 1; break; }
+                m->cursor = k;
+                alarm(60);
+                work(k);
+            }
+            alarm(0);
+            if(m->capped) vp::cap(tag + ": deadline after " + std::to_string(k) + " of " + std::to_string(todo) + " states of this shard (discovery order, shallow first)");
+            vp::finish();
+            fflush(nullptr);
+            _exit(0);
+        }
+        int st = 0; waitpid(pid, &st, 0);
+        ++gen;
+        if(WIFEXITED(st) && WEXITSTATUS(st) == 0) break;
+        size_t k = (size_t)m->cursor;
+        crashed(k, *m, how_died(st));
+        pos = k + 1;
+    }
 }
 
 } // namespace sv
